@@ -117,3 +117,10 @@ Print Assumptions c10_tag_names_no_variant.
 Print Assumptions c10_tag_selects.
 Print Assumptions c10_variant_first_exact.
 Print Assumptions c10_variant_names.
+
+(* `rename_all = lowercase` is str::to_lowercase, not ASCII lowercasing (modelled for Latin-1, Greek
+   except sigma, Cyrillic) *)
+Example c10_lowercase_beyond_ascii :
+  lowercase "ÖsterReich" = "österreich"%string /\ lowercase "ÉtatsUnis" = "étatsunis"%string
+  /\ lowercase "Ελλάδα" = "ελλάδα"%string /\ lowercase "Россия" = "россия"%string /\ lowercase "×Þ_Ab" = "×þ_ab"%string.
+Proof. vm_compute. repeat split. Qed.
